@@ -171,3 +171,191 @@ Proof.
     rewrite enc_val by (pose proof (Z.mod_pos_bound (val a) (val b) Hb0); nia).
     fold S2. rewrite Z.div_mul by lia. reflexivity.
 Qed.
+
+Definition udr (a b : Z) : outcome (list Z * list Z) :=
+  if b =? 0 then Panic DivZero else Ret (enc (a / b), enc (a mod b)).
+
+Lemma canon_nonnil_pos l : canon l -> l <> [] -> 0 < val l.
+Proof. apply canon_val_pos. Qed.
+
+Lemma run_pre_std_spec p byval a b : div_ok p = true -> canon a -> canon b ->
+  run_pre p byval std_pre a b = udr (val a) (val b).
+Proof.
+  intros Hok Ca Cb. pose proof B_gt1 as HB. unfold udr.
+  pose proof (div_ok_inv p Hok) as F. destruct F as [Has _ _ _ _ _ _ _ _ _ _ _ _ _ _ _ _ _].
+  unfold std_pre. cbn [run_pre].
+  destruct b as [|d0 b'].
+  { reflexivity. }
+  assert (Hbne : d0 :: b' <> []) by discriminate.
+  pose proof (canon_val_pos _ Cb Hbne) as Hbpos.
+  cbn [is_zero]. replace (val (d0 :: b') =? 0) with false by (symmetry; apply Z.eqb_neq; lia).
+  destruct a as [|x a'].
+  { cbn [is_zero]. change (val []) with 0. rewrite Z.div_0_l, Z.mod_0_l by lia. reflexivity. }
+  cbn [is_zero].
+  assert (Hane : x :: a' <> []) by discriminate.
+  pose proof (canon_val_pos _ Ca Hane) as Hapos.
+  set (a := x :: a') in *. 
+  destruct b' as [|d1 b''].
+  - (* single-digit divisor *)
+    rewrite val_single in *.
+    assert (Hd0 : 0 < d0 < B).
+    { pose proof (proj1 Cb) as W. apply wf_cons in W as [Hd _]. unfold digit in Hd. lia. }
+    destruct (Z.eqb_spec d0 1) as [->|Hn1].
+    + rewrite Z.div_1_r, Z.mod_1_r, enc_of_canon by auto. reflexivity.
+    + rewrite div_rem_digit_spec by (try apply Ca; lia). cbn [bind].
+      pose proof (Z.mod_pos_bound (val a) d0 ltac:(lia)) as Hm.
+      destruct byval.
+      * rewrite uadd_digit_spec by (auto using canon_nil; lia). cbn [bind val]. reflexivity.
+      * rewrite of_u64_enc by lia. reflexivity.
+  - set (b := d0 :: d1 :: b'') in *.
+    rewrite cmp_slice_spec by auto. cbn [bind].
+    destruct (Z.compare_spec (val a) (val b)) as [E|L|G].
+    + rewrite E, Z.div_same, Z_mod_same_full by lia. rewrite enc_digit by lia. reflexivity.
+    + rewrite Z.div_small, Z.mod_small by lia. rewrite enc_of_canon by auto. reflexivity.
+    + apply knuth_path_spec; auto. unfold b; cbn [length]; lia.
+Qed.
+
+Theorem udivrem_spec p a b : div_ok p = true -> canon a -> canon b ->
+  udivrem p a b = if val b =? 0 then Panic DivZero else Ret (enc (val a / val b), enc (val a mod val b)).
+Proof.
+  intros Hok Ca Cb. unfold udivrem. rewrite (dk_pre_ref p (div_ok_inv p Hok)).
+  apply run_pre_std_spec; auto.
+Qed.
+
+Theorem udivrem_val_spec p a b : div_ok p = true -> canon a -> canon b ->
+  udivrem_val p a b = if val b =? 0 then Panic DivZero else Ret (enc (val a / val b), enc (val a mod val b)).
+Proof.
+  intros Hok Ca Cb. unfold udivrem_val. rewrite (dk_pre_val p (div_ok_inv p Hok)).
+  apply run_pre_std_spec; auto.
+Qed.
+
+(** ** refinement statements against SpecDiv *)
+Definition enc2 (qr : Z * Z) : list Z * list Z := (enc (fst qr), enc (snd qr)).
+
+Theorem udivrem_refines p a b : div_ok p = true -> canon a -> canon b ->
+  udivrem p a b = omap enc2 (spec_udivrem (val a) (val b)).
+Proof.
+  intros. rewrite udivrem_spec by auto. unfold spec_udivrem, nz, omap.
+  destruct (val b =? 0); reflexivity.
+Qed.
+
+Theorem udiv_spec p a b : div_ok p = true -> canon a -> canon b ->
+  udiv p a b = omap enc (spec_udiv (val a) (val b)).
+Proof.
+  intros. unfold udiv. rewrite udivrem_spec by auto. unfold spec_udiv, nz, omap.
+  destruct (val b =? 0); reflexivity.
+Qed.
+
+Theorem udiv_val_spec p a b : div_ok p = true -> canon a -> canon b ->
+  udiv_val p a b = omap enc (spec_udiv (val a) (val b)).
+Proof.
+  intros. unfold udiv_val. rewrite udivrem_val_spec by auto. unfold spec_udiv, nz, omap.
+  destruct (val b =? 0); reflexivity.
+Qed.
+
+Theorem umod_floor_spec p a b : div_ok p = true -> canon a -> canon b ->
+  umod_floor p a b = omap enc (spec_urem (val a) (val b)).
+Proof.
+  intros. unfold umod_floor. rewrite udivrem_spec by auto. unfold spec_urem, nz, omap.
+  destruct (val b =? 0); reflexivity.
+Qed.
+
+(** the `to_u32` short-cut *)
+Lemma to_u32_some b v : canon b -> to_u32 b = Some v -> val b = v /\ 0 <= v < B.
+Proof.
+  intros Cb. unfold to_u32, to_u64. pose proof B_gt1.
+  destruct b as [|d [|e b']]; try discriminate.
+  - intros E. destruct (0 <? 2 ^ 32); inversion E. cbn. lia.
+  - destruct (Z.ltb_spec d (2 ^ 32)); intros E; inversion E. subst v. rewrite val_single.
+    pose proof (proj1 Cb) as W. apply wf_cons in W as [Hd _]. unfold digit in Hd. lia.
+Qed.
+
+Lemma urem_gen_spec p dr a b : div_ok p = true -> canon a -> canon b ->
+  dr a b = udr (val a) (val b) ->
+  urem_gen p dr a b = omap enc (spec_urem (val a) (val b)).
+Proof.
+  intros Hok Ca Cb Hdr. unfold urem_gen, spec_urem, nz, omap.
+  rewrite (dk_short p (div_ok_inv p Hok)).
+  destruct (to_u32 b) as [v|] eqn:E.
+  - destruct (to_u32_some b v Cb E) as [Hv Hr]. rewrite Hv.
+    destruct (Z.eqb_spec v 0) as [->|Hn]; [reflexivity|].
+    rewrite rem_digit_spec by (try apply Ca; lia). cbn [bind].
+    rewrite of_u64_enc; [reflexivity|]. pose proof (Z.mod_pos_bound (val a) v ltac:(lia)). lia.
+  - rewrite Hdr. unfold udr. destruct (val b =? 0); reflexivity.
+Qed.
+
+Theorem urem_spec p a b : div_ok p = true -> canon a -> canon b ->
+  urem p a b = omap enc (spec_urem (val a) (val b)).
+Proof.
+  intros. apply urem_gen_spec; auto. rewrite udivrem_spec by auto. reflexivity.
+Qed.
+
+Theorem urem_val_spec p a b : div_ok p = true -> canon a -> canon b ->
+  urem_val p a b = omap enc (spec_urem (val a) (val b)).
+Proof.
+  intros. apply urem_gen_spec; auto. rewrite udivrem_val_spec by auto. reflexivity.
+Qed.
+
+Lemma ceil_pos a b : 0 <= a -> 0 < b ->
+  - ((- a) / b) = if a mod b =? 0 then a / b else a / b + 1.
+Proof.
+  intros Ha Hb. destruct (Z.eqb_spec (a mod b) 0) as [E|E].
+  - rewrite Z.div_opp_l_z by lia. lia.
+  - rewrite Z.div_opp_l_nz by lia. lia.
+Qed.
+
+Theorem udiv_ceil_spec p a b : div_ok p = true -> canon a -> canon b ->
+  udiv_ceil p a b = omap enc (spec_udiv_ceil (val a) (val b)).
+Proof.
+  intros Hok Ca Cb. unfold udiv_ceil. rewrite udivrem_spec by auto. unfold spec_udiv_ceil, nz, omap.
+  pose proof (val_nonneg a (proj1 Ca)) as Ha. pose proof (val_nonneg b (proj1 Cb)) as Hb.
+  destruct (Z.eqb_spec (val b) 0) as [E|E]; [reflexivity|]. cbn [bind].
+  rewrite ceil_pos by lia.
+  pose proof (Z.mod_pos_bound (val a) (val b) ltac:(lia)) as Hm.
+  assert (Hq : 0 <= val a / val b) by (apply Z.div_pos; lia).
+  destruct (Z.eqb_spec (val a mod val b) 0) as [Em|Em].
+  - rewrite Em. reflexivity.
+  - assert (Hne : enc (val a mod val b) <> []) by (intros H; apply enc_nil_iff in H; lia).
+    destruct (enc (val a mod val b)) eqn:Ee; [contradiction|]. cbn [is_zero].
+    rewrite uadd_digit_spec by (auto using enc_canon, (dk_as p (div_ok_inv p Hok)); pose proof B_gt1; lia).
+    rewrite enc_val by lia. reflexivity.
+Qed.
+
+(** ** checked variants *)
+Lemma is_zero_val b : canon b -> is_zero b = (val b =? 0).
+Proof.
+  intros Cb. destruct b; [reflexivity|]. cbn [is_zero]. symmetry. apply Z.eqb_neq.
+  pose proof (canon_val_pos _ Cb ltac:(discriminate)). lia.
+Qed.
+
+Lemma guarded_spec {A C} (f : outcome A) (enc' : C -> A) z (r : C) :
+  f = omap enc' (nz z r) ->
+  guarded true (z =? 0) f = omap (option_map enc') (chk z r).
+Proof.
+  intros ->. unfold guarded, chk, nz, omap. cbn [andb]. destruct (z =? 0); reflexivity.
+Qed.
+
+Theorem uchecked_div_spec p a b : div_ok p = true -> canon a -> canon b ->
+  uchecked_div p a b = omap (option_map enc) (spec_uchecked_div (val a) (val b)).
+Proof.
+  intros Hok Ca Cb. unfold uchecked_div. rewrite (dk_g1 p (div_ok_inv p Hok)), is_zero_val by auto.
+  apply guarded_spec. apply udiv_spec; auto.
+Qed.
+Theorem uchecked_div_euclid_spec p a b : div_ok p = true -> canon a -> canon b ->
+  uchecked_div_euclid p a b = omap (option_map enc) (spec_uchecked_div (val a) (val b)).
+Proof.
+  intros Hok Ca Cb. unfold uchecked_div_euclid. rewrite (dk_g2 p (div_ok_inv p Hok)), is_zero_val by auto.
+  apply guarded_spec. apply udiv_spec; auto.
+Qed.
+Theorem uchecked_rem_euclid_spec p a b : div_ok p = true -> canon a -> canon b ->
+  uchecked_rem_euclid p a b = omap (option_map enc) (spec_uchecked_rem (val a) (val b)).
+Proof.
+  intros Hok Ca Cb. unfold uchecked_rem_euclid. rewrite (dk_g3 p (div_ok_inv p Hok)), is_zero_val by auto.
+  apply guarded_spec. apply urem_spec; auto.
+Qed.
+Theorem uchecked_div_rem_euclid_spec p a b : div_ok p = true -> canon a -> canon b ->
+  uchecked_div_rem_euclid p a b = omap (option_map enc2) (spec_uchecked_divrem (val a) (val b)).
+Proof.
+  intros Hok Ca Cb. unfold uchecked_div_rem_euclid. rewrite (dk_g4 p (div_ok_inv p Hok)), is_zero_val by auto.
+  apply guarded_spec. apply udivrem_refines; auto.
+Qed.
